@@ -25,7 +25,8 @@ PRIOS = ('now', 'crew_idle', 'doing_empty', 'todo_empty', 'garbage')
 
 
 class Driver:
-    def __init__(self, max_sub, max_req, max_cycles, prios=PRIOS):
+    def __init__(self, max_sub, max_req, max_cycles, prios=PRIOS, max_reset=0):
+        self.max_reset = max_reset
         import dawgie
         import dawgie.pl.dag
         import dawgie.pl.farm as farm
@@ -101,6 +102,8 @@ class Driver:
         self.schedule.promote.ae = self.schedule.ae
         self.sub = None
         self.nsub = self.nreq = self.cycles = 0
+        self.nreset = 0
+        self.reset_refused = None
         self.booted = False
         self.calls = []
         self.since_reset = []
@@ -138,6 +141,9 @@ class Driver:
                 evs.append(('s1', prio))
         if self.sub is not None:
             evs.append(('s3',))
+        if self.nreset < self.max_reset:
+            # the operator's POST /api/cmd/reset, at any moment
+            evs.append(('cmd-reset',))
         # the work queue
         if self.nreq < self.max_req:
             evs.append(('req',))
@@ -183,6 +189,19 @@ class Driver:
                     pr = ts.Priority.TODO
                 self.since_reset.append(pr)
                 p.step_3(None)
+            elif kind == 'cmd-reset':
+                import json
+                import dawgie.fe.api
+                import dawgie.tools.submit as ts
+                self.nreset += 1
+                before = (f.state, f.transitioning.name, f.priority, self.work(),
+                          f.waiting_on_crew(), f.waiting_on_doing(), f.waiting_on_todo())
+                reply = json.loads(dawgie.fe.api.cmd_reset(None))
+                if reply.get('status') == 'success':
+                    self.since_reset.append(ts.Priority.NOW)   # a reset is "reload now"
+                else:
+                    self.reset_refused = (before, (f.state, f.transitioning.name, f.priority, self.work(),
+                                                   f.waiting_on_crew(), f.waiting_on_doing(), f.waiting_on_todo()))
             elif kind == 'req':
                 self.nreq += 1
                 self.schedule.organize({'t.a'}, targets={'A'}, event='command-run requested by user')
@@ -210,7 +229,7 @@ class Driver:
     def canon(self):
         w = self.w
         return (w.snapshot(), self.booted, None if self.sub is None else self.sub[1],
-                self.nsub, self.nreq, self.cycles, self.work(),
+                self.nsub, self.nreq, self.nreset, self.cycles, self.work(),
                 tuple(p.name for p in self.since_reset), self.cycle_updates)
 
 
@@ -235,6 +254,8 @@ def check(dr, ev, exc, ncalls_before, report):
         dr.cycle_updates += 1
         if dr.cycle_updates > 1:
             report(f'C12/update-triggered-twice/{prio}', f'second update_trigger in one reload cycle (event {ev})')
+        if ev[0] == 'cmd-reset':
+            continue    # "now": no condition to hold, FSM.priority is not involved
         if want is not None and c['prio'] != want:
             report(f'C12/priority-not-the-strongest/{prio}-vs-{want.name}',
                    f'update_trigger under priority {prio}, strongest submitted is {want.name}')
@@ -244,6 +265,13 @@ def check(dr, ev, exc, ncalls_before, report):
     if exc is not None and not new_calls:
         where = ev[0] if ev[0] not in ('run', 'deliver') else f'{ev[0]}:{w.threads[ev[1]].kind}'
         report(f'C12/step-raises/{type(exc).__name__}/{where}', f'event {ev} raised {exc!r}')
+    if getattr(dr, 'reset_refused', None):
+        before, after = dr.reset_refused
+        dr.reset_refused = None
+        if before != after:
+            report('C12/refused-reset-has-side-effects', f'{before} -> {after}')
+        if before[0] == 'running' and before[1] == 'active':
+            report('C12/reset-refused-while-active', f'cmd_reset refused in {before}')
     if getattr(dr, 'refused', None):
         before, after = dr.refused
         dr.refused = None
@@ -300,9 +328,10 @@ def liveness(dr, report):
 
 
 def job(args):
-    tier, seed, max_sub, max_req, max_cycles, prios = args
+    tier, seed, max_sub, max_req, max_cycles, prios = args[:6]
+    max_reset = args[6] if len(args) > 6 else 0
     from . import explore
-    dr = Driver(max_sub, max_req, max_cycles, prios)
+    dr = Driver(max_sub, max_req, max_cycles, prios, max_reset)
 
     def build(hist, report=None):
         dr.reset()
@@ -333,7 +362,7 @@ def job(args):
     res = explore.replay_bfs(expand, k0, cap=400000)
     viol = {}
     for sig, what, hist in res['violations']:
-        v = viol.setdefault(sig, {'what': what, 'replay': {'history': hist, 'bounds': [max_sub, max_req, max_cycles],
+        v = viol.setdefault(sig, {'what': what, 'replay': {'history': hist, 'bounds': [max_sub, max_req, max_cycles], 'max_reset': max_reset,
                                                           'prios': list(prios)}, 'count': 0})
         v['count'] += 1
         if len(hist) < len(v['replay']['history']):
@@ -341,7 +370,7 @@ def job(args):
     for t in dr.w.threads:
         t.kill()
     return {'states': res['states'], 'transitions': res['transitions'], 'violations': viol,
-            'bounds': [max_sub, max_req, max_cycles], 'capped': res['capped'],
+            'bounds': [max_sub, max_req, max_cycles, max_reset], 'capped': res['capped'],
             'digest': common.digest(sorted(res['keys']))}
 
 
@@ -349,9 +378,12 @@ def run(ctx):
     if ctx.quick():
         jobs = [(ctx.tier, ctx.seed, 2, 1, 2, PRIOS),
                 # more queue traffic (the queue list is re-bound by every organize), one submission
-                (ctx.tier, ctx.seed, 1, 3, 1, ('todo_empty', 'doing_empty', 'crew_idle'))]
+                (ctx.tier, ctx.seed, 1, 3, 1, ('todo_empty', 'doing_empty', 'crew_idle')),
+                # the operator's reset command at any moment next to two submissions
+                (ctx.tier, ctx.seed, 2, 1, 1, ('crew_idle', 'todo_empty'), 1)]
     else:
-        jobs = [(ctx.tier, ctx.seed, 3, 1, 2, PRIOS), (ctx.tier, ctx.seed, 2, 2, 2, PRIOS)]
+        jobs = [(ctx.tier, ctx.seed, 3, 1, 2, PRIOS), (ctx.tier, ctx.seed, 2, 2, 2, PRIOS),
+                (ctx.tier, ctx.seed, 2, 1, 2, PRIOS, 2)]
     states = transitions = 0
     per = []
     for j in jobs:
@@ -382,7 +414,7 @@ def run(ctx):
 
 def replay(data):
     r = data['replay']
-    dr = Driver(*r['bounds'], tuple(r.get('prios', PRIOS)))
+    dr = Driver(*r['bounds'][:3], tuple(r.get('prios', PRIOS)), r.get('max_reset', 0))
     dr.reset()
     hits = []
     for ev in [tuple(e) for e in r['history']]:
